@@ -40,6 +40,10 @@ func stateAnnotation(s *Scanner, c byte) *jerr.JApiError {
 func stateMultilineAnnotationTextStart(s *Scanner, c byte) *jerr.JApiError {
 	s.foundAt(s.curIndex, AnnotationBegin)
 	s.step = stateMultilineAnnotation
+	if c == AnnotationDelimiterPart {
+		// The '*' before this '/' belongs to the opening "/*", it cannot close the annotation.
+		return nil
+	}
 	return stateMultilineAnnotation(s, c)
 }
 
